@@ -85,6 +85,15 @@ func suiteRepeat(c *Ctx) error {
 				_ = pi
 			}
 		}
+		// one short name in three packages, same shape, overlapping string literals: the signature
+		// indexed from gamma.Dup matches alpha.Dup and beta.Dup equally well but on DIFFERENT
+		// strings, so their alerts differ only in the match details
+		for _, d := range [][3]string{{"alpha", "tok-AAAA-1", "pad-XXXX-1"}, {"beta", "tok-BBBB-2", "pad-YYYY-2"}, {"gamma", "tok-AAAA-1", "tok-BBBB-2"}} {
+			dir := filepath.Join(root, d[0])
+			os.MkdirAll(dir, 0o755)
+			src := fmt.Sprintf("package %s\n\nfunc Dup(a int) string {\n\ts := %q\n\tif a > 1 {\n\t\ts += %q\n\t}\n\treturn s\n}\n", d[0], d[1], d[2])
+			os.WriteFile(filepath.Join(dir, "dup.go"), []byte(src), 0o644)
+		}
 		// index the tree into both backends (one run, not part of the repetition)
 		pdb := filepath.Join(c.Work, fmt.Sprintf("tree%d.db", ti))
 		jdb := filepath.Join(c.Work, fmt.Sprintf("tree%d.json", ti))
